@@ -35,12 +35,13 @@ SHARED = {}
 
 
 PROUTE = [0]
+KPAIR = [-1]
 
 
-def affine_event(darsia, rng, dim, ks, tid):
+def affine_event(darsia, rng, dim, ks, tid, unit=False):
     # half of the events re-parametrise one long-lived object per dimension: the map is a function of the parameters set last
     A = SHARED.setdefault(dim, darsia.AffineTransformation(dim)) if rng.random() < 0.5 else darsia.AffineTransformation(dim)
-    sn, sd = rng.choice([(1, 1), (2, 1), (1, 2)])
+    sn, sd = rng.choice([(1, 1), (2, 1), (1, 2)]) if not unit else (1, 1)
     t = [rng.randint(-5, 5) for _ in range(dim)]
     # the parameters reach the object by the routes the API offers, taken in turn: one call with keywords, positionally, one
     # parameter per call in any order (the object may hold other values from before), or as one vector
@@ -74,7 +75,11 @@ def affine_event(darsia, rng, dim, ks, tid):
              "C": (darsia.VoxelCenter, darsia.VoxelCenterArray, lambda z: np.floor(z) + 0.5)}
     # (kinds that floor - voxels, voxel centres - only for maps without rotation and scaling: cos(pi/2) = 6e-17 puts exact
     # images next to a voxel boundary, the subject of the open finding on voxel-typed quarter turns)
-    k1, k2 = (rng.choice("XVC"), rng.choice("XVC")) if (sn == sd and all(k % 4 == 0 for k in ks)) else ("X", "X")
+    if sn == sd and all(k % 4 == 0 for k in ks):
+        KPAIR[0] += 1                      # every (source kind, destination kind) pair in turn
+        k1, k2 = "XVC"[KPAIR[0] % 3], "XVC"[(KPAIR[0] // 3) % 3]
+    else:
+        k1, k2 = "X", "X"
     try:
         raw_in = pts + (0.5 if k1 == "C" else 0.0)
         tin = kinds[k1][1](raw_in.copy())
@@ -372,6 +377,10 @@ def run(ck, replay=None):
                 events.append(affine_event(darsia, rng, 2, (k,), f"affine2:{k}:{rep}"))
         for ks in triples:
             events.append(affine_event(darsia, rng, 3, ks, "affine3:" + "".join(map(str, ks))))
+        # typed calls: every (source kind, destination kind) pair on rotation-free maps with unit scaling, in 2-D and 3-D
+        for j_ in range(9):
+            events.append(affine_event(darsia, rng, 2, (0,), f"affine2:typed:{j_}", unit=True))
+            events.append(affine_event(darsia, rng, 3, (0, 0, 0), f"affine3:typed:{j_}", unit=True))
         for i in range(20 if quick else 300):
             events.append(generic_event(darsia, rng, rng.choice([2, 3]), f"generic:{i}"))
         for i in range(2 if quick else 20):
